@@ -19,6 +19,7 @@ This is the classic relational numeric domain; it quantifies over all values
 and all paths, never enumerates paths, never runs the code.
 """
 import ast
+import os
 
 from .core import AnalysisError, unparse
 from .dataflow import Flow, chain, call_name, _walk_no_scopes, order_splits
@@ -762,7 +763,108 @@ class Interp(object):
     # -- queries -----------------------------------------------------------------
     def holds_at(self, node, goals, after=False):
         st = (self.state_out if after else self.state_in)[node.id]
-        return self.entails_state(st, goals)
+        ok = self.entails_state(st, goals)
+        if not ok and st is not None and \
+                not os.environ.get("RIGVERIF_NO_OPAQUE_GATE"):
+            op = self.opaque_in(st, goals)
+            if op:
+                raise AnalysisError(
+                    "%s: the obligation mentions %s, a value the "
+                    "interpreter knows nothing about (no bound, no link to "
+                    "an argument or a length): not shown is not refuted" % (
+                        self.fn.name, ", ".join(sorted(op))))
+        return ok
+
+    def opaque_in(self, st, goals):
+        """Atoms of the goals whose value the state says nothing about:
+        following the equalities of the state from the atom, one never
+        reaches an entry value (``x@0``), a length, or an atom that occurs
+        in any inequality or next to a constant.  Such an atom stands for
+        an expression the interpreter could not read (an attribute of an
+        object fetched from a table, the result of a call): failing to
+        prove a bound on it is not evidence that the bound fails."""
+        goals = list(goals) if isinstance(goals, (list, tuple)) else [goals]
+        rows = {}
+        for c in st:
+            rows.setdefault(c.p.key(), c)
+        eqs = {}            # atom -> set of atoms it is equated with
+        bounded = set()     # atoms that occur in a non-equality / w. const
+        for c in st:
+            neg = (-c.p).key()
+            at = c.p.atoms()
+            is_eq = neg in rows and not c.strict
+            has_const = bool(c.p.t.get((), 0))
+            if is_eq and len(at) == 2 and not has_const:
+                a, b = sorted(at)
+                eqs.setdefault(a, set()).add(b)
+                eqs.setdefault(b, set()).add(a)
+            elif is_eq and len(at) == 1 and not has_const:
+                bounded |= set(at)      # x == 0
+            else:
+                bounded |= set(at)
+        info_of = getattr(self.flow, "atom_info", {})
+
+        def polys_in(x):
+            if isinstance(x, Poly):
+                yield x
+            elif isinstance(x, (list, tuple)):
+                for y in x:
+                    for z in polys_in(y):
+                        yield z
+
+        memo = {}
+
+        def known(a, stack=()):
+            if a in memo:
+                return memo[a]
+            if a in stack:
+                return False
+            if a.endswith("@0") or a in bounded or a.startswith("len("):
+                memo[a] = True
+                return True
+            r = None
+            if a.startswith("call:"):
+                r = False
+            else:
+                info = info_of.get(a)
+                if info is not None:
+                    kind = info[0]
+                    if kind in ("attr", "sub", "call"):
+                        # an attribute / item / pure function of known
+                        # things is as good as an argument
+                        parts = [x for p_ in polys_in(info[1:])
+                                 for x in p_.atoms()]
+                        r = bool(parts) and all(
+                            known(x, stack + (a,)) for x in parts)
+                    else:
+                        r = True        # an operation the engine has
+                        #                 axioms for (min, max, //, %, ...)
+            if not r:
+                r = any(known(b, stack + (a,)) for b in eqs.get(a, ()))
+            if not stack:
+                memo[a] = r
+            return r
+        out = set()
+        for g in goals:
+            for a0 in g.p.atoms():
+                if not known(a0):
+                    # name the uninterpreted thing the atom leads to
+                    seen, todo, cul = set(), [a0], []
+                    while todo:
+                        a = todo.pop()
+                        if a in seen:
+                            continue
+                        seen.add(a)
+                        if a.startswith("call:") or "." in a or (
+                                info_of.get(a) or ("",))[0] in (
+                                    "attr", "sub", "call"):
+                            cul.append(a)
+                        todo.extend(eqs.get(a, ()))
+                    # (a plain name the state says nothing about - a loop
+                    # variable, a name of an enclosing function - is not
+                    # flagged: only values the engine failed to read are)
+                    out |= set(cul[:2])
+        return out
 
     def reachable(self, node):
         return self.state_in[node.id] is not None
